@@ -180,7 +180,7 @@ CLAIMS = {
              "subtract_mean=True) -> apply_actor(rng) -> unsquash with the flags of the training wrapper and the evaluation loop; the exported policy takes "
              "hidden_activation / state_independent_std from the config fields given to the Actor, 'gaussian' is the Actor's un-overridden default, model = "
              "params['params'], scalings from the aux keys the wrappers write, wrapper stack order. STATE_INDEPENDENT_STD=False is not a trainable "
-             "configuration (DESIGN.md §7) and is out of scope.",
+             "configuration (DESIGN.md §6) and is out of scope.",
         ref="§5 C20"),
 }
 
